@@ -3,6 +3,7 @@ import PaletteModel.StimulusDriver
 import PaletteModel.LutDriver
 import PaletteModel.TransferDriver
 import PaletteModel.ClampDriver
+import PaletteModel.ConvDriver
 
 open Proto
 
@@ -10,6 +11,7 @@ def dispatch (op : String) (cfg inp outp : List String) : Verdict :=
   match op with
   | "stim" => Stim.handle cfg inp outp
   | "clamp" | "clamphwb" => Clamp.handle op cfg inp outp
+  | "conv" => Conv.handle cfg inp outp
   | "curve" => Transfer.handle cfg inp outp
   | "lutenc" | "lutdec" | "lutenc16" | "lutdec16" => Lut.handle op cfg inp outp
   | _ => .bad s!"unknown op {op}"
